@@ -15,7 +15,10 @@ at one of their effects, run against the real KeychainSqlite3 + TpmFile in a scr
        the stored public key of the selected key, and that key is listed in the keychain;
      - every self-signed certificate listed by a Key verifies under the key bits of that Key;
      - fault recovery: an operation that failed by an injected fault is repeated and must end in the
-       same observable state / result as a clean run of it on a copy of the store taken before.
+       same observable state / result as a clean run of it on a copy of the store taken before;
+     - no row of table keys / certificates that no Identity / Key view lists ("valid references").
+ * strata: plain histories, the name-reuse stratum, the cardinality stratum (one owner with up to 130 items, built
+   and deleted in batches of quiet steps that are judged at the observation that closes the batch).
 """
 import base64
 import os
@@ -38,7 +41,23 @@ RULE = ('histories of <=25 (quick) / <=60 (thorough) operations over create/touc
         'that select the re-created key by key name, certificate name, Key / Identity / Certificate object, identity '
         'and default identity (after set_default_key / set_default_identity), with and without key_locator; the signer '
         'must sign so that the signature verifies under the key bits the keychain stores for the selected key NOW, and '
-        'every self-signed certificate in the views must verify under the key bits of its key. non-trivial = the '
+        'every self-signed certificate in the views must verify under the key bits of its key. cardinality stratum (9 '
+        'quick / 168 thorough histories on top): ONE identity with n keys, ONE key with n certificates, ONE keychain '
+        'with n identities, n from 1, 2, 31..33, 63..66, 100, 127..130 (the round numbers an implementation may page or '
+        'batch by, and their neighbours; quick: 63/64, 65/66 and one of 100..130 keys every run), a small neighbour '
+        'identity whose key row lies before / amid / after; built in batches (operations executed one by one and '
+        'compared with the model by result, observed and judged against the specification -- folded over the batch -- '
+        'at the end of the batch; key pairs round-robin from the pool); then at that size: all views (iteration, len, '
+        'membership, lookup of every listed item; foreign names probed per view), close+reopen, set default at '
+        'boundary positions (first, last, 32nd, 64th, 65th, 128th ...), signers for keys / certificates at those '
+        'positions; then delete cascades: single items at boundary positions, bulk subsets (first 32/64/65, last '
+        '1/2/33/64/65, every second, a block, random half; del_key / Identity.del_key / del_cert / Key.del_cert / '
+        'del_identity), the whole owner (del_identity, del_key, or key by key), storage failures anywhere inside a '
+        'long cascade (effect 0 .. 4n+5) followed by the repeat; then the SAME signer arguments for the deleted keys '
+        '(key name, certificate name, identity), close+reopen, re-creation under an old name. Oracle after every '
+        'observed step as everywhere (state = specification incl. private-key files, no private key without listed '
+        'key, no signer for a key that is not listed) plus: no row of table keys / certificates that no view lists. '
+        'non-trivial = the '
         'history creates a key and contains a delete, a signer request or a fault; distinct by history hash')
 ASSUMPTIONS = [
     'SQLite executes the triggers of INITIALIZE_SQL as modelled (exercised on every case, not verified)',
@@ -248,10 +267,27 @@ LIVE = []
 SELF_OK = {}         # wire of a self-signed certificate -> its signature verifies under the key bits it carries
 
 
+def _scratch_root():
+    """memory-backed scratch space when there is one (a commit costs no fsync there; durability against power loss
+    is not part of the property), else the default temp dir"""
+    d = '/dev/shm'
+    try:
+        if os.path.isdir(d) and os.access(d, os.W_OK | os.X_OK):
+            st = os.statvfs(d)
+            if st.f_bavail * st.f_frsize > (1 << 28):
+                return d
+    except OSError:
+        pass
+    return None
+
+
+SCRATCH_ROOT = _scratch_root()
+
+
 class Impl:
     def __init__(self, copy_of=None):
         from ndn.security.keychain.keychain_sqlite3 import KeychainSqlite3
-        self.dir = tempfile.mkdtemp(prefix='c15-')
+        self.dir = tempfile.mkdtemp(prefix='c15-', dir=SCRATCH_ROOT)
         self.pib = os.path.join(self.dir, 'pib.db')
         self.tpmdir = os.path.join(self.dir, 'tpm')
         self.fi = FaultInjector()
@@ -487,7 +523,7 @@ class Impl:
     def note(self, site, cls, what):
         self.notes.append((site, cls, what))
 
-    def view_checks(self, site, view, names, others):
+    def view_checks(self, site, view, names, others, budget=24):
         """iteration / len / membership / lookup of one Mapping agree; names of other owners are not members."""
         from ndn.encoding import Name
         if len(view) != len(names):
@@ -495,11 +531,15 @@ class Impl:
                       f'len() = {len(view)} but iteration yields {len(names)} names')
         if len(set(map(tuple, names))) != len(names):
             self.note(site + '.__iter__', 'duplicate-names', f'{names}')
-        for n in others:
-            if n in names:
-                continue
+        mine = set(map(tuple, names))
+        cand = [n for n in others if tuple(n) not in mine]
+        capped = len(cand) > budget
+        if capped:          # large stores: probe the first / last ones and some spread over the rest, forms alternating
+            q = max(1, budget // 4)
+            cand = cand[:q] + cand[-q:] + [cand[(j * len(cand)) // (2 * q)] for j in range(2 * q)]
+        for j, n in enumerate(cand):
             rn = real_name(n)
-            if rn in view or Name.to_str(rn) in view:
+            if capped and ((Name.to_str(rn) in view) if j % 2 else (rn in view)) or not capped and (rn in view or Name.to_str(rn) in view):
                 self.note(site + '.__getitem__', 'member-not-listed',
                           f'{n} is reported as a member (in / []) but iteration does not list it')
 
@@ -514,33 +554,40 @@ class Impl:
         id_names = [abs_name(n) for n in kc]
         self.view_checks('KeychainSqlite3', kc, id_names, [])
         ids = []
-        for n in id_names:
+        incomplete = False     # a listed item could not be fetched (reported): what is beneath it is not visited
+        for ipos, n in enumerate(id_names):
             try:
                 ident = kc[real_name(n)]
             except KeyError:
                 self.note('KeychainSqlite3.__getitem__', 'listed-not-member', f'identity {n} listed but lookup fails')
+                incomplete = True
                 continue
             if abs_name(ident.name) != n:
                 self.note('KeychainSqlite3.__getitem__', 'wrong-item', f'lookup of {n} gives {abs_name(ident.name)}')
             key_names = [abs_name(k) for k in ident]
-            self.view_checks('Identity', ident, key_names, all_keys)
+            self.view_checks('Identity', ident, key_names, all_keys,
+                             24 if len(id_names) <= 24 or (ipos + len(id_names)) % 16 == 0 else 2)
             keys = []
-            for kn in key_names:
+            for kpos, kn in enumerate(key_names):
                 try:
                     k = ident[real_name(kn)]
                 except KeyError:
                     self.note('Identity.__getitem__', 'listed-not-member', f'key {kn} listed but lookup fails')
+                    incomplete = True
                     continue
                 if abs_name(k.name) != kn or abs_name(k.identity) != n:
                     self.note('Identity.__getitem__', 'wrong-item', f'lookup of {kn} in {n} gives {abs_name(k.name)} of {abs_name(k.identity)}')
                 cert_names = [abs_name(c) for c in k]
-                self.view_checks('Key', k, cert_names, all_certs)
+                # in a large store every key is probed with a few foreign certificate names, every 16th with more
+                self.view_checks('Key', k, cert_names, all_certs,
+                                 24 if len(all_keys) <= 24 or (kpos + len(all_keys)) % 16 == 0 else 2)
                 certs = []
                 for cn in cert_names:
                     try:
                         c = k[real_name(cn)]
                     except KeyError:
                         self.note('Key.__getitem__', 'listed-not-member', f'certificate {cn} listed but lookup fails')
+                        incomplete = True
                         continue
                     if abs_name(c.name) != cn or abs_name(c.key) != kn:
                         self.note('Key.__getitem__', 'wrong-item', f'lookup of {cn} in {kn} gives {abs_name(c.name)} of {abs_name(c.key)}')
@@ -559,6 +606,17 @@ class Impl:
             if ident.has_default_key() != bool(dk):
                 self.note('Identity.has_default_key', 'disagrees-with-default_key', f'{n}')
             ids.append([n, int(bool(ident.is_default)), len(ident), sorted(keys), dk])
+        # rows of the PIB that no view lists (a key without its identity, a certificate without its key)
+        seen_k = set(tuple(k[0]) for i in ids for k in i[3])
+        seen_c = set(tuple(c[0]) for i in ids for k in i[3] for c in k[4])
+        orphan_k = [n for n in all_keys if tuple(n) not in seen_k]
+        orphan_c = [n for n in all_certs if tuple(n) not in seen_c]
+        if orphan_k and not incomplete:
+            self.note('PIB.keys', 'key-row-not-listed-by-any-identity',
+                      f'{len(orphan_k)} row(s) of table keys belong to no listed identity: {orphan_k[:3]}')
+        if orphan_c and not incomplete:
+            self.note('PIB.certificates', 'certificate-row-not-listed-by-any-key',
+                      f'{len(orphan_c)} row(s) of table certificates belong to no listed key: {orphan_c[:3]}')
         try:
             di = [abs_name(kc.default_identity().name)]
         except KeyError:
@@ -648,10 +706,14 @@ VER_POOL = [100001, 100002, 100003]    # certificate versions
 
 
 class Gen:
-    def __init__(self, rng, malformed, reuse=False):
+    def __init__(self, rng, malformed, reuse=False, big=None):
         self.rng = rng
         self.malformed = malformed
         self.reuse = reuse
+        self.script = []        # cardinality stratum: (operation, quiet) pairs that are played first
+        self.quiet = False      # the operation handed out last is part of a batch (no observation after it)
+        self.nofault = False    # ... closes a batch (observed, never failed: the batch is judged by this observation)
+        self.big_n = 0
         self.next_m = 1
         self.next_rsa = 1001
         self.next_kid = 2010 if reuse else 2000
@@ -663,6 +725,8 @@ class Gen:
         self.illnamed = False
         self.todo = []          # reuse stratum: operations scheduled to follow (signer requests after a re-creation ...)
         self.was_rsa = set()    # reuse stratum: key names that were RSA keys at some time
+        if big is not None:
+            self.big_script(*big)
 
     def material(self, rsa=False):
         if rsa and self.next_rsa <= 1000 + N_RSA:
@@ -680,6 +744,11 @@ class Gen:
         return list(fallback())
 
     def op(self, obs):
+        self.quiet = self.nofault = False
+        if self.script:
+            o, q = self.script.pop(0)
+            self.quiet, self.nofault = q is True, q == 'obs'
+            return o
         o = self._op(obs)
         # targeted pattern (seeded regression C15): the SAME get_signer arguments before and after a delete
         if o[0] == 13:
@@ -933,8 +1002,214 @@ class Gen:
                 return [3, idn, 1 if m >= 1000 else 0, [1, kid], m, ver]
         return None
 
+
+    # -- the cardinality stratum: many keys / certificates / identities, then cascades ---------------------------
+    def big_script(self, shape, n):
+        """A scripted prefix: build [n] keys under one identity / [n] certificates under one key / [n] identities
+        (batches of quiet steps: executed, not observed one by one), look at the store at that size (views,
+        defaults, signers at boundary positions, close + reopen), delete parts of it and then the whole, and ask
+        for signers of what was deleted.  Materials are taken round-robin from the pool (the model only needs the
+        number of the key pair; two keys may share one)."""
+        rng = self.rng
+        self.big_n = n
+        self.next_kid, self.next_xkid = 2200, 3200      # the script uses 2000+j / 3000+j (j < n) and 2900..2902
+        sc = []
+
+        def mat(j):
+            return 1 + (j % (N_EC - 1))
+
+        def batch(ops, observe_some=True):
+            """all quiet but the last one (and, sometimes, one in the middle)"""
+            mid = rng.randrange(len(ops)) if ops and observe_some and rng.random() < 0.3 else -1
+            for j, o in enumerate(ops):
+                sc.append((o, 'obs' if (j == len(ops) - 1 or j == mid) else True))
+
+        def positions(cnt, k):
+            """up to k positions of 0..cnt-1, boundary ones first (first, last, around 32 / 64 / 128)"""
+            cand = [p for p in (0, cnt - 1, 63, 64, 65, 31, 32, 127, 128, 1, cnt - 2) if 0 <= p < cnt]
+            cand = list(dict.fromkeys(cand))
+            rng.shuffle(cand)
+            return cand[:k]
+
+        def subset(cnt):
+            """positions of a bulk delete"""
+            t = rng.random()
+            if t < 0.25:
+                return list(range(min(cnt, rng.choice([32, 64, 65]))))
+            if t < 0.45:
+                return list(range(0, cnt, 2))
+            if t < 0.65:
+                return list(range(max(0, cnt - rng.choice([1, 2, 33, 64, 65])), cnt))
+            if t < 0.85:
+                a = rng.randrange(cnt)
+                return list(range(a, min(cnt, a + rng.choice([2, 32, 64]))))
+            return [p for p in range(cnt) if rng.random() < 0.5]
+
+        ida, idb = [list(x) for x in rng.sample(ID_POOL[:4], 2)]
+        if shape == 'ids':
+            names = [[40 + j // 60, 10 + j % 60] for j in range(n)]
+            with_key = set(positions(n, 4)) | set(j for j in range(n) if rng.random() < 0.05)
+            keyof = {}
+            ops = []
+            for j, nm in enumerate(names):
+                if j in with_key:
+                    keyof[j] = (nm + [0, 2000 + j], 100001 + j % 4)
+                    ops.append([2, nm, [2000 + j], mat(j), keyof[j][1]])
+                else:
+                    ops.append([1, nm])
+            batch(ops)
+            if rng.random() < 0.4:
+                sc.append(([14], False))
+            for p in positions(n, 2):
+                sc.append(([5, names[p]], False))
+                sc.append(([13, [0, 0, [], [], [], []]], False))
+            for p in list(keyof)[:3]:
+                sc.append(([13, [0, 0, [], [], [names[p]], []]], False))
+            dead = subset(n)
+            batch([[10, names[p]] for p in dead])
+            for p in [q for q in keyof if q in dead][:3]:
+                kn, ver = keyof[p]
+                sc.append(([13, [0, 0, rng.choice([[kn + [1, ver]], []]), [kn], [], []]], False))
+                sc.append(([13, [0, 0, [kn + [1, ver]], [], [], []]], False))
+            if rng.random() < 0.5:
+                sc.append(([14], False))
+            rest = [p for p in range(n) if p not in set(dead)]
+            if rest and rng.random() < 0.6:
+                batch([[10, names[p]] for p in rest])
+            for p in list(keyof)[:2]:
+                sc.append(([13, [0, 0, [keyof[p][0] + [1, keyof[p][1]]], [], [], []]], False))
+            self.script = sc
+            return
+
+        # one identity (ida) with many keys, or one key of it with many certificates; a small neighbour (idb)
+        keys = []                                   # (key name, version of the self-signed certificate)
+        nk = n if shape == 'keys' else rng.choice([1, 2, 3])
+        where_b = rng.choice([None, 0, nk // 2, nk])        # the neighbour's key: before / amid / after ours
+        ops = []
+        for j in range(nk):
+            if where_b == j:
+                ops.append([2, idb, [2900 + rng.randrange(3)], mat(j + 7), 100001])
+            ver = 100001 + j % 5
+            explicit = rng.random() < 0.3
+            kid = 3000 + j if explicit else 2000 + j
+            keys.append((ida + [0, kid], ver))
+            if j == 0 and rng.random() < 0.5:
+                ops.append([2, ida, [kid], mat(j), ver])
+                keys[-1] = (ida + [0, kid], ver)
+                if explicit:
+                    keys[-1] = (ida + [0, 2000 + j], ver)
+                    ops[-1] = [2, ida, [2000 + j], mat(j), ver]
+                continue
+            if j == 0:
+                ops.append([1, ida])
+            ops.append([3, ida, 0, [1, kid] if explicit else [0, kid], mat(j), ver])
+        if where_b == nk:
+            ops.append([2, idb, [2900 + rng.randrange(3)], mat(nk + 7), 100001])
+        batch(ops)
+        certs = []
+        if shape == 'certs':
+            kn, ver = keys[rng.randrange(nk)]
+            certs = [kn + [1, ver]]
+            ops = []
+            for j in range(n - 1):
+                cn = kn + [100 + j % 3, 100010 + j]
+                certs.append(cn)
+                ops.append([4, kn, cn, self.next_data])
+                self.next_data += 1
+            if ops:
+                batch(ops)
+        else:
+            for p in positions(nk, rng.choice([0, 1, 3])):          # a few keys get more certificates
+                for r in range(rng.choice([1, 2])):
+                    sc.append(([4, keys[p][0], keys[p][0] + [100 + r, 100010 + p], self.next_data], False))
+                    self.next_data += 1
+
+        def signers(ps, extra=False):
+            for p in ps:
+                k, ver = keys[p]
+                t = rng.random()
+                if t < 0.4:
+                    a = [0, 0, [], [k], [], []]
+                elif t < 0.8:
+                    a = [0, 0, [k + [1, ver]], [], [], rng.choice([[], [rng.choice(LOC_POOL)]])]
+                else:
+                    a = [0, 0, [k + [1, ver]], [k], [], []]
+                sc.append(([13, a], False))
+            if extra:
+                sc.append(([13, [0, 0, [], [], [ida], []]], False))
+
+        if rng.random() < 0.4:
+            sc.append(([14], False))
+        if shape == 'certs':
+            for p in positions(len(certs), 2):
+                sc.append(([7, ida, kn, certs[p]], False))
+                sc.append(([13, [0, 0, [], [kn], [], []]], False))
+            for p in positions(len(certs), 2):
+                sc.append(([13, [0, 0, [certs[p]], [], [], []]], False))
+            t = rng.random()
+            if t < 0.4:
+                for p in positions(len(certs), rng.choice([1, 2, 3])):
+                    sc.append(([8, certs[p]] if rng.random() < 0.6 else [12, ida, kn, certs[p]], False))
+                    certs[p] = None
+            elif t < 0.7:
+                dead = subset(len(certs))
+                batch([[8, certs[p]] if rng.random() < 0.7 else [12, ida, kn, certs[p]] for p in dead])
+                for p in dead:
+                    certs[p] = None
+            sc.append(([13, [0, 0, [], [kn], [], []]], False))
+            if rng.random() < 0.3:
+                sc.append(([14], False))
+            sc.append((rng.choice([[9, kn], [11, ida, kn], [10, ida]]), False))
+            sc.append(([13, [0, 0, [], [kn], [], []]], False))
+            for cn in [c for c in certs if c][:2] + certs[:1]:
+                if cn:
+                    sc.append(([13, [0, 0, [cn], [], [], []]], False))
+            if rng.random() < 0.5:
+                sc.append(([14], False))
+            self.script = sc
+            return
+        # shape 'keys'
+        for p in positions(nk, 2):
+            if rng.random() < 0.6:
+                sc.append(([6, ida, keys[p][0]], False))
+        signers(positions(nk, 2), extra=True)
+        alive = list(range(nk))
+        t = rng.random()                # most often the whole owner is deleted at its full size
+        if t < 0.15:
+            for p in positions(nk, rng.choice([1, 2, 3])):
+                sc.append(([9, keys[p][0]] if rng.random() < 0.5 else [11, ida, keys[p][0]], False))
+                alive.remove(p)
+        elif t < 0.3:
+            dead = subset(nk)
+            batch([[9, keys[p][0]] if rng.random() < 0.5 else [11, ida, keys[p][0]] for p in dead])
+            alive = [p for p in alive if p not in set(dead)]
+            signers([p for p in positions(nk, 4) if p in dead][:2])
+        if rng.random() < 0.3:
+            sc.append(([14], False))
+        if rng.random() < 0.9 or not alive:
+            sc.append(([10, ida], False))
+        else:
+            batch([[11, ida, keys[p][0]] if rng.random() < 0.5 else [9, keys[p][0]] for p in alive], observe_some=False)
+        signers(positions(nk, 5), extra=True)
+        if rng.random() < 0.5:
+            sc.append(([14], False))
+            signers(positions(nk, 2))
+        if rng.random() < 0.5:          # the identity again, with a key under a name that existed
+            k, ver = keys[rng.choice(positions(nk, 3))]
+            if 2000 <= k[-1] < 3000:
+                sc.append(([2, ida, [k[-1]], mat(rng.randrange(60)), ver], False))
+                sc.append(([13, [0, 0, [], [k], [], []]], False))
+        self.script = sc
+
     def fault(self, op):
         rng = self.rng
+        if self.quiet or self.nofault:      # inside a batch / the observed step that closes a batch
+            return None
+        if self.big_n and op[0] in (9, 10, 11):
+            # a cascade over many rows: a failure anywhere in it, also late
+            if rng.random() < 0.3:
+                return rng.choice([rng.randrange(0, 4), rng.randrange(0, 4 * self.big_n + 6), rng.randrange(0, 4 * self.big_n + 6)])
+            return None
         if op[0] == 14 or rng.random() > 0.27:
             return None
         if op[0] == 10:
@@ -991,22 +1266,25 @@ def find_key(obs, kn):
     return None
 
 
-def run_history(ctx, seed, length, malformed, fixed=None, reuse=False):
+def run_history(ctx, seed, length, malformed, fixed=None, reuse=False, big=None):
     """Generate (or replay [fixed]) one history on the implementation, check the oracles, then compare with
     the model.  Returns the history as a replayable list."""
     import random
     rng = random.Random(seed)
     M = ctx.call
-    gen = Gen(rng, malformed, reuse)
+    gen = Gen(rng, malformed, reuse, big if fixed is None else None)
+    if big is not None and fixed is None:
+        length = len(gen.script) + rng.randint(0, 4)
     impl = Impl()
     hist, trace, record = [], [], []
+    batch = []      # quiet steps since the last observation: (op, result); their oracle is evaluated at the next observation
     lost = set()
     recreated, since_open, ever_ids = set(), set(), []   # counters of the name-reuse stratum (evidence only)
     flagsum = {'key': False, 'del': False, 'sign': False, 'fault': False}
     spec_ok = True          # the spec oracles apply (no ill-named certificate imported so far)
 
     def case():
-        return {'seed': seed, 'malformed': malformed, 'reuse': reuse, 'history': record}
+        return {'seed': seed, 'malformed': malformed, 'reuse': reuse, 'big': list(big) if big else None, 'history': record}
 
     def viol(site, cls, what):
         ctx.violation(site, cls, what, case())
@@ -1044,9 +1322,20 @@ def run_history(ctx, seed, length, malformed, fixed=None, reuse=False):
                 viol(site, 'private-key-without-key', f'private key file of {kn} exists but the key is not in the keychain')
         if faulted:
             return
-        exp = M([2, to_spec(prev), op])
+        # the operations of the batch since the last observation, one by one through the specification
+        st = to_spec(prev)
+        for bop, bres in batch:
+            e = M([2, st, bop])
+            if bres[0] == 1 and not e:
+                viol(OP_SITE[bop[0]], 'accepted-but-spec-refuses', f'{bop} succeeded; the specification refuses it in this state')
+            elif bres[0] == 0 and e:
+                viol(OP_SITE[bop[0]], 'refused-but-spec-accepts', f'{bop} raised {bres[2]}; the specification accepts it')
+            if e:
+                st = e[0]
+        del batch[:]
+        exp = M([2, st, op])
         if op[0] == 13:
-            want = M([3, to_spec(prev), op[1]])
+            want = M([3, st, op[1]])
             if res[0] == 1:
                 got = res[1][1]
                 if not want:
@@ -1063,7 +1352,7 @@ def run_history(ctx, seed, length, malformed, fixed=None, reuse=False):
             viol(site, 'accepted-but-spec-refuses', f'{op} succeeded; the specification refuses it in this state')
         elif res[0] == 0 and exp:
             viol(site, 'refused-but-spec-accepts', f'{op} raised {res[2]}; the specification accepts it')
-        want_state = canon_spec(exp[0]) if exp else canon_spec(to_spec(prev))
+        want_state = canon_spec(exp[0]) if exp else canon_spec(st)
         if canon_spec(to_spec(obs)) != want_state:
             viol(site, 'state-differs-from-spec',
                  f'{op} (result {res[:2]}): state {canon_spec(to_spec(obs))}, specification {want_state}')
@@ -1097,15 +1386,18 @@ def run_history(ctx, seed, length, malformed, fixed=None, reuse=False):
             if queue is not None:
                 if not queue:
                     break
-                fault, op, variant = queue.pop(0)
+                item = queue.pop(0)
+                fault, op, variant = item[:3]
                 fault = fault[0] if fault else None
+                quiet = len(item) > 3 and bool(item[3])
             elif pending is not None:
-                op, variant, fault = pending[0], pending[1], None
+                op, variant, fault, quiet = pending[0], pending[1], None, False
             else:
                 if i >= length:
                     break
                 op = gen.op(prev)
                 fault = gen.fault(op)
+                quiet = gen.quiet and fault is None and op[0] in (1, 2, 3, 4, 8, 9, 10, 11, 12)
                 variant = rng.randrange(0, 128)
                 i += 1
             if op[0] == 4 and op[2][:-2] != op[1]:
@@ -1114,6 +1406,18 @@ def run_history(ctx, seed, length, malformed, fixed=None, reuse=False):
             if fault is not None and not impl.in_txn and spec_ok:
                 clone = Impl(copy_of=impl)
             res = impl.do(op, variant, fault)
+            if quiet and fault is None and pending is None:
+                # part of a batch: executed, compared with the model by its result, observed with the next operation
+                hist.append([[], op])
+                record.append([[], op, variant, 1])
+                trace.append((res, None, impl.in_txn))
+                batch.append((op, res))
+                flagsum['key'] |= op[0] in (2, 3) and res[0] == 1
+                flagsum['del'] |= op[0] in (8, 9, 10, 11, 12) and res[0] == 1
+                ctx.stat(f'op:{OP_SITE[op[0]].split(".")[-1]}:{"ok" if res[0] == 1 else "err"}')
+                ctx.stat('big:quiet-step')
+                continue
+            assert not (batch and op[0] == 13), 'harness: signer request inside a batch'
             obs = impl.observe()
             faulted = res[0] == 0 and res[1] == E_FAULT
             hist.append([[fault] if fault is not None else [], op])
@@ -1181,13 +1485,13 @@ def run_history(ctx, seed, length, malformed, fixed=None, reuse=False):
                     what = 'different exception class'
                 elif res[0] == 1 and mres[1] != res[1]:
                     what = 'different result'
-                elif canon_model_obs(mobs) != obs:
+                elif obs is not None and canon_model_obs(mobs) != obs:
                     what = 'different observable state'
                 elif not mclean and not in_txn:
                     what = 'model has an open transaction, implementation has none'
                 if what:
                     ctx.disagree(site, f'{what} at step {j}', {'seed': seed, 'malformed': malformed, 'history': record[:j + 1]},
-                                 [mres, canon_model_obs(mobs)], [res, obs])
+                                 [mres, canon_model_obs(mobs) if obs is not None else None], [res, obs])
                     break
                 if in_txn:
                     ctx.stat('open-transaction-after-op')
@@ -1197,8 +1501,26 @@ def run_history(ctx, seed, length, malformed, fixed=None, reuse=False):
         SELF_OK.clear()
     nontrivial = flagsum['key'] and (flagsum['del'] or flagsum['sign'] or flagsum['fault'])
     ctx.case(('h', seed, malformed, repr(hist)), nontrivial,
-             {'history': record[:6], 'len': len(record)}, 'malformed' if malformed else ('reuse' if reuse else 'valid'))
+             {'history': record[:6], 'len': len(record)}, 'malformed' if malformed else ('reuse' if reuse else ('big' if big else 'valid')))
     return record
+
+
+BIG_SIZES = [1, 2, 31, 32, 33, 63, 64, 65, 66, 100, 127, 128, 129, 130]
+
+
+def big_plan(rng, thorough):
+    """(shape, n) of the histories of the cardinality stratum.  Quick: one identity each with 63/64, 65/66, 100..130,
+    <= 33 and 65..130 keys, two keys with many certificates (63..66 / another size), two keychains with many identities
+    (63..66 / another size); thorough: every size in every shape, four times."""
+    if thorough:
+        plan = [(sh, n) for sh in ('keys', 'certs', 'ids') for n in BIG_SIZES] * 4
+        rng.shuffle(plan)
+        return plan
+    plan = [('keys', rng.choice([63, 64])), ('keys', rng.choice([65, 66])), ('keys', rng.choice([100, 127, 128, 129, 130])),
+            ('keys', rng.choice([1, 2, 31, 32, 33])), ('keys', rng.choice([65, 66, 100, 127, 128, 129, 130])),
+            ('certs', rng.choice([63, 64, 65, 66])), ('certs', rng.choice([2, 31, 32, 33, 100, 127, 128, 129, 130])),
+            ('ids', rng.choice([63, 64, 65, 66])), ('ids', rng.choice([31, 32, 33, 100, 127, 128, 129, 130]))]
+    return plan
 
 
 def run(ctx):
@@ -1217,6 +1539,10 @@ def run(ctx):
             seed = rng.getrandbits(48)
             length = rng.randint(8, max_len)
             run_history(ctx, seed, length, False, reuse=True)
+        # the cardinality stratum (drawn after the others, which it leaves as they were)
+        for shape, n in big_plan(rng, ctx.n(0, 1)):
+            run_history(ctx, rng.getrandbits(48), 0, False, big=(shape, n))
+            ctx.stat(f'big:{shape}:{n}')
     finally:
         undo_patches()
 
@@ -1227,6 +1553,8 @@ def replay(ctx, data):
     case = unjson(data.get('case') or data['broken'][0]['case'])
     setup_pool_and_patches()
     try:
-        run_history(ctx, case['seed'], 0, case['malformed'], fixed=case['history'], reuse=case.get('reuse', False))
+        big = case.get('big')
+        run_history(ctx, case['seed'], 0, case['malformed'], fixed=case['history'], reuse=case.get('reuse', False),
+                    big=tuple(big) if big else None)
     finally:
         undo_patches()
